@@ -543,12 +543,13 @@ def linear_runs(res: Result) -> dict[str, Any]:
     runs = 0
     for cls, steps in (("tcp_refused", ["tcp_refused"]), ("eof_in_handshake", ["tcp_ok", "eof"]), ("bad_pw", ["tcp_ok", "bad_pw"]),
                        ("marker01", ["tcp_ok", "marker01"]), ("handshake_silence", ["tcp_ok", "time"]),
-                       ("mixed", None)):
+                       ("mixed", None), ("long_outage", ["tcp_refused"])):
         w = h.fresh()
         try:
             h.apply(w, "rl_start")
             gaps: list[float] = []
-            for n in range(1, 14):
+            # long_outage: the device stays away for about a day (1300 consecutive failures, one minute apart after the first few)
+            for n in range(1, 1301 if cls == "long_outage" else 14):
                 if w.viol:
                     break
                 seq = steps if steps is not None else (["tcp_refused"] if n % 2 else ["tcp_ok", "eof"])
@@ -571,7 +572,7 @@ def linear_runs(res: Result) -> dict[str, Any]:
                     break
                 gaps.append(round(w.attempts[-1]["t"] - fail_t, 6))
             runs += 1
-            table[cls] = gaps
+            table[cls] = gaps if len(gaps) < 20 else gaps[:12] + ["...", len(gaps)]  # type: ignore[list-item]
             auth = cls in ("bad_pw", "marker01")
             for i, g in enumerate(gaps, start=1):
                 want = 60.0 if auth else formula(i)
